@@ -279,6 +279,64 @@ func Check(w *World, prev Model, ex *Expect, tOff int64, res *BlockResult, full 
 	} else if ex.Abort {
 		fail("propagation_oog", "a subscriber ran out of gas but BeginBlocker returned normally (out-of-gas swallowed)")
 	}
+	if len(fails) > 0 {
+		return fails
+	}
+
+	// --- timers: the statement's clauses, each on its own ---------------------------------------
+	if !res.Panicked {
+		ctx := res.Ctx
+		for ti, tc := range timers {
+			p := prev.T[ti]
+			act := w.K.GetEpochInfo(ctx, tc.ID)
+			if !p.Started {
+				should := tOff >= tc.Start
+				if act.EpochCountingStarted != should {
+					fail("start", "timer %s (start %s): block time %s, counting started = %v", tc.ID, offString(tc.Start), offString(tOff), act.EpochCountingStarted)
+				} else if should && (act.CurrentEpoch != 1 || !act.CurrentEpochStartTime.Equal(at(tc.Start))) {
+					fail("start", "timer %s started as epoch %d beginning %s; must be epoch 1 beginning at its start time %s", tc.ID, act.CurrentEpoch, timeString(act), offString(tc.Start))
+				} else if !should && act.CurrentEpoch != 0 {
+					fail("start", "timer %s has epoch %d before its start time", tc.ID, act.CurrentEpoch)
+				}
+			} else {
+				due := tOff > p.CurStart+tc.Dur
+				d := act.CurrentEpoch - p.Cur
+				if d < 0 || d > 1 {
+					fail("tick", "timer %s went from epoch %d to %d in one block", tc.ID, p.Cur, act.CurrentEpoch)
+				} else if (d == 1) != due {
+					fail("tick", "timer %s: block time %s, current epoch %d ends at %s: advanced=%v, must be %v", tc.ID, offString(tOff), p.Cur, offString(p.CurStart+tc.Dur), d == 1, due)
+				}
+				if !act.EpochCountingStarted {
+					fail("tick", "timer %s lost its counting-started flag", tc.ID)
+				}
+			}
+			if act.EpochCountingStarted && act.CurrentEpoch >= 1 && !act.CurrentEpochStartTime.Equal(at(grid(tc, act.CurrentEpoch))) {
+				fail("grid", "timer %s epoch %d starts at %s, grid point is %s", tc.ID, act.CurrentEpoch, timeString(act), offString(grid(tc, act.CurrentEpoch)))
+			}
+		}
+		if len(fails) > 0 {
+			return fails // everything below is derived from the reference transition
+		}
+		if full {
+			if all := w.K.AllEpochInfos(ctx); len(all) != len(timers) {
+				fail("saved", "%d epoch infos stored, %d timers configured", len(all), len(timers))
+			}
+		}
+		for ti, tc := range timers {
+			act := w.K.GetEpochInfo(ctx, tc.ID)
+			// complete record against the reference
+			n := ex.Next.T[ti]
+			wantStart := at(n.CurStart)
+			if !n.Started {
+				wantStart = time.Time{}
+			}
+			if act.Identifier != tc.ID || !act.StartTime.Equal(at(tc.Start)) || int64(act.Duration) != tc.Dur ||
+				act.EpochCountingStarted != n.Started || act.CurrentEpoch != n.Cur || act.CurrentEpochStartHeight != n.Height ||
+				!act.CurrentEpochStartTime.Equal(wantStart) {
+				fail("saved", "timer %s stored as %s; reference {started %v epoch %d start %s height %d}", tc.ID, infoString(act), n.Started, n.Cur, offString(n.CurStart), n.Height)
+			}
+		}
+	}
 
 	// --- signal stream -----------------------------------------------------------------------
 	// per timer: exactly the expected signals, in order, each to each subscriber once, right arguments
@@ -338,7 +396,7 @@ func Check(w *World, prev Model, ex *Expect, tOff int64, res *BlockResult, full 
 			tc := timers[g.Timer]
 			if !g.ViewStarted || g.ViewEpoch != g.Epoch || !g.ViewStart.Equal(at(grid(tc, g.Epoch))) {
 				fail("signal_view", "during %s the epoch info query showed started=%v epoch=%d start=%s; the signalled epoch is %d starting %s",
-					invString(timers, g.Timer, g.Kind, g.Sub, g.Epoch, g.Out), g.ViewStarted, g.ViewEpoch, g.ViewStart.Format("15:04:05.999999999"), g.Epoch, at(grid(tc, g.Epoch)).Format("15:04:05.999999999"))
+					invString(timers, g.Timer, g.Kind, g.Sub, g.Epoch, g.Out), g.ViewStarted, g.ViewEpoch, viewString(g.ViewStart), g.Epoch, offString(grid(tc, g.Epoch)))
 			}
 			if g.SeenOther != e.SeenOther || g.SeenOwnCnt != e.SeenOwnCnt {
 				fail("containment", "during %s the subscriber saw other-subscriber marker %+v / own counter %d; surviving writes so far are %+v / %d (a discarded write was visible, or a surviving one was not)",
@@ -352,52 +410,6 @@ func Check(w *World, prev Model, ex *Expect, tOff int64, res *BlockResult, full 
 		return fails
 	}
 	ctx := res.Ctx
-
-	// --- timers ------------------------------------------------------------------------------
-	if full {
-		if all := w.K.AllEpochInfos(ctx); len(all) != len(timers) {
-			fail("saved", "%d epoch infos stored, %d timers configured", len(all), len(timers))
-		}
-	}
-	for ti, tc := range timers {
-		p := prev.T[ti]
-		act := w.K.GetEpochInfo(ctx, tc.ID)
-		if !p.Started {
-			should := tOff >= tc.Start
-			if act.EpochCountingStarted != should {
-				fail("start", "timer %s (start %s): block time %s, counting started = %v", tc.ID, offString(tc.Start), offString(tOff), act.EpochCountingStarted)
-			} else if should && (act.CurrentEpoch != 1 || !act.CurrentEpochStartTime.Equal(at(tc.Start))) {
-				fail("start", "timer %s started as epoch %d beginning %s; must be epoch 1 beginning at its start time %s", tc.ID, act.CurrentEpoch, timeString(act), offString(tc.Start))
-			} else if !should && act.CurrentEpoch != 0 {
-				fail("start", "timer %s has epoch %d before its start time", tc.ID, act.CurrentEpoch)
-			}
-		} else {
-			due := tOff > p.CurStart+tc.Dur
-			d := act.CurrentEpoch - p.Cur
-			if d < 0 || d > 1 {
-				fail("tick", "timer %s went from epoch %d to %d in one block", tc.ID, p.Cur, act.CurrentEpoch)
-			} else if (d == 1) != due {
-				fail("tick", "timer %s: block time %s, current epoch %d ends at %s: advanced=%v, must be %v", tc.ID, offString(tOff), p.Cur, offString(p.CurStart+tc.Dur), d == 1, due)
-			}
-			if !act.EpochCountingStarted {
-				fail("tick", "timer %s lost its counting-started flag", tc.ID)
-			}
-		}
-		if act.EpochCountingStarted && act.CurrentEpoch >= 1 && !act.CurrentEpochStartTime.Equal(at(grid(tc, act.CurrentEpoch))) {
-			fail("grid", "timer %s epoch %d starts at %s, grid point is %s", tc.ID, act.CurrentEpoch, timeString(act), offString(grid(tc, act.CurrentEpoch)))
-		}
-		// complete record against the reference
-		n := ex.Next.T[ti]
-		wantStart := at(n.CurStart)
-		if !n.Started {
-			wantStart = time.Time{}
-		}
-		if act.Identifier != tc.ID || !act.StartTime.Equal(at(tc.Start)) || int64(act.Duration) != tc.Dur ||
-			act.EpochCountingStarted != n.Started || act.CurrentEpoch != n.Cur || act.CurrentEpochStartHeight != n.Height ||
-			!act.CurrentEpochStartTime.Equal(wantStart) {
-			fail("saved", "timer %s stored as %s; reference {started %v epoch %d start %s height %d}", tc.ID, infoString(act), n.Started, n.Cur, offString(n.CurStart), n.Height)
-		}
-	}
 
 	// --- events ------------------------------------------------------------------------------
 	{
@@ -450,6 +462,13 @@ func offString(off int64) string {
 		return fmt.Sprintf("g+%ds", s)
 	}
 	return fmt.Sprintf("g+%ds+%dns", s, ns)
+}
+
+func viewString(t time.Time) string {
+	if t.Year() < 2000 {
+		return "(zero)"
+	}
+	return offString(int64(t.Sub(genesisTime)))
 }
 
 func timeString(e types.EpochInfo) string {
